@@ -529,7 +529,7 @@ func wholePathAAD(c *eng.Ctx, f *ssa.Function, op string, at ssa.CallInstruction
 				bad = "the constant " + eng.Expr(x)
 			}
 		case *ssa.Convert:
-			if p, ok := x.X.(*ssa.Parameter); ok && p.Name() == "path" {
+			if p, ok := x.X.(*ssa.Parameter); ok && eng.VarName(p) == "path" {
 				whole++
 			} else {
 				bad = "a conversion of " + eng.ExprDeep(x.X)
